@@ -29,9 +29,20 @@ type Line struct {
 	Size float64
 }
 
+// Form is a Form XObject: its lines are shown when the form is invoked; nested forms are declared in the
+// form's own /Resources (a nested form may re-use a name that means something else in the invoking scope).
+type Form struct {
+	Name   string // resource name without the slash, e.g. "Fm0"
+	Lines  []Line
+	Matrix [6]float64 // zero value: no /Matrix
+	Forms  []Form
+}
+
 // Page is a logical page.
 type Page struct {
-	Lines      []Line
+	Lines []Line
+	// Forms are invoked (`/Name Do`) in order after the page's own lines.
+	Forms      []Form
 	NoContents bool // page object without /Contents
 	MediaBox   [4]float64
 	Rotate     int
@@ -47,20 +58,21 @@ type Doc struct {
 
 // Layout is the physical-layout vector. The zero value of every field is the plain default.
 type Layout struct {
-	XRef       string // "table" (default) | "stream"
-	ObjStm     string // "none" (default) | "all" | "alt"          (needs XRef=stream)
-	Filter     string // "none" | "Fl" | "AHx" | "A85Fl" | "FlPNG"  (content and ToUnicode streams)
-	Length     string // "direct" | "before" | "after"             (indirect /Length object placed before/after its stream)
-	Split      int    // number of content streams per page: 0/1, 2, 3
-	SplitWS    string // "left" (default): whitespace stays at the end of the left part | "right": moves to the start of the right part
-	SplitAt    int    // rotates which token boundaries are used as cut points
-	Depth      int    // page-tree depth: 0/1 flat, 2, 3
-	Inherit    string // "leaf" | "parent" | "root": where MediaBox/Resources/Rotate live
-	Revisions  int    // 0/1, 2, 3
-	Order      string // "asc" | "desc" (descending object numbers, shuffled file order)
-	Unbalanced bool   // first and last page directly under the root, the others one or two levels deeper
-	Indirect   bool   // Resources, the Font dictionary, MediaBox and multi-stream /Contents arrays are indirect objects
-	EOL        string // "LF" | "CRLF" | "CR"
+	XRef         string // "table" (default) | "stream"
+	ObjStm       string // "none" (default) | "all" | "alt"          (needs XRef=stream)
+	Filter       string // "none" | "Fl" | "AHx" | "A85Fl" | "FlPNG"  (content and ToUnicode streams)
+	Length       string // "direct" | "before" | "after"             (indirect /Length object placed before/after its stream)
+	Split        int    // number of content streams per page: 0/1, 2, 3
+	SplitWS      string // "left" (default): whitespace stays at the end of the left part | "right": moves to the start of the right part
+	SplitAt      int    // rotates which token boundaries are used as cut points
+	Depth        int    // page-tree depth: 0/1 flat, 2, 3
+	Inherit      string // "leaf" | "parent" | "root": where MediaBox/Resources/Rotate live
+	Revisions    int    // 0/1, 2, 3
+	Order        string // "asc" | "desc" (descending object numbers, shuffled file order)
+	Unbalanced   bool   // first and last page directly under the root, the others one or two levels deeper
+	PerPageFonts bool   // every page (with its forms) numbers its font resource names /F1.. by first use, so the same name means different fonts on different pages (requires Inherit=leaf)
+	Indirect     bool   // Resources, the Font dictionary, MediaBox and multi-stream /Contents arrays are indirect objects
+	EOL          string // "LF" | "CRLF" | "CR"
 }
 
 func (l Layout) String() string {
@@ -201,16 +213,16 @@ func num(f float64) string {
 	return s
 }
 
-// contentTokens renders the page's content stream as a token list (so that split points are
-// exactly the token boundaries).
-func contentTokens(p Page, cm *cidMap) []string {
+// contentTokens renders a content stream (page or form) as a token list (so that split points are
+// exactly the token boundaries): the lines, then one `/Name Do` per form, then the extra tokens.
+func contentTokens(lines []Line, forms []Form, extra []string, cm *cidMap, name func(FontKind) string) []string {
 	var t []string
-	for _, ln := range p.Lines {
+	for _, ln := range lines {
 		size := ln.Size
 		if size == 0 {
 			size = 10
 		}
-		t = append(t, "BT", fontName(ln.Font), num(size), "Tf", num(ln.X), num(ln.Y), "Td")
+		t = append(t, "BT", name(ln.Font), num(size), "Tf", num(ln.X), num(ln.Y), "Td")
 		if ln.Font == Type0Identity {
 			var hex strings.Builder
 			hex.WriteByte('<')
@@ -228,8 +240,25 @@ func contentTokens(p Page, cm *cidMap) []string {
 		}
 		t = append(t, "Tj", "ET")
 	}
-	t = append(t, p.ExtraTokens...)
+	for _, f := range forms {
+		t = append(t, "/"+f.Name, "Do")
+	}
+	t = append(t, extra...)
 	return t
+}
+
+// FlattenPage lists the texts a reader must report for the page, in content order (forms expanded).
+func FlattenPage(p Page) []Line {
+	out := append([]Line{}, p.Lines...)
+	var walk func(fs []Form)
+	walk = func(fs []Form) {
+		for _, f := range fs {
+			out = append(out, f.Lines...)
+			walk(f.Forms)
+		}
+	}
+	walk(p.Forms)
+	return out
 }
 
 func fontName(k FontKind) string { return fmt.Sprintf("/F%d", int(k)+1) }
@@ -414,33 +443,82 @@ func Plan(doc Doc, lay Layout) File {
 	inherit := dflt(lay.Inherit, "leaf")
 	cm := &cidMap{codes: map[rune]int{}}
 
-	// which fonts are used
+	// which fonts are used (globally, and per page in order of first use)
 	used := map[FontKind]bool{}
-	for _, p := range doc.Pages {
-		for _, l := range p.Lines {
+	pageFonts := make([][]FontKind, len(doc.Pages))
+	for i, p := range doc.Pages {
+		seen := map[FontKind]bool{}
+		for _, l := range FlattenPage(p) {
 			used[l.Font] = true
+			if !seen[l.Font] {
+				seen[l.Font] = true
+				pageFonts[i] = append(pageFonts[i], l.Font)
+			}
+		}
+	}
+	hasForms := false
+	for _, p := range doc.Pages {
+		if len(p.Forms) > 0 {
+			hasForms = true
+		}
+	}
+	if (lay.PerPageFonts || hasForms) && inherit != "leaf" {
+		panic("pdfw: per-page resources (PerPageFonts / forms) need Inherit=leaf")
+	}
+	nameFor := func(page int) func(FontKind) string {
+		if !lay.PerPageFonts {
+			return fontName
+		}
+		return func(k FontKind) string {
+			for n, f := range pageFonts[page] {
+				if f == k {
+					return fmt.Sprintf("/F%d", n+1)
+				}
+			}
+			panic("pdfw: font kind not used on page")
 		}
 	}
 	// contents first so that the cid map is complete before the ToUnicode stream is rendered
 	pageTokens := make([][]string, len(doc.Pages))
 	for i, p := range doc.Pages {
-		pageTokens[i] = contentTokens(p, cm)
+		pageTokens[i] = contentTokens(p.Lines, p.Forms, p.ExtraTokens, cm, nameFor(i))
 	}
 
 	var objs []pending
 	add := func(p pending) { objs = append(objs, p) }
 
 	// fonts
-	fontRes := func(ref func(string) int) string {
+	fontDictFor := func(page int, ref func(string) int) string {
 		var s strings.Builder
-		s.WriteString("<< /Font <<")
-		for k := Type1WinAnsi; k <= Type1Differences; k++ {
-			if used[k] {
-				fmt.Fprintf(&s, " %s %d 0 R", fontName(k), ref(fmt.Sprintf("font%d", k)))
+		s.WriteString("<<")
+		if lay.PerPageFonts {
+			for _, k := range pageFonts[page] {
+				fmt.Fprintf(&s, " %s %d 0 R", nameFor(page)(k), ref(fmt.Sprintf("font%d", k)))
+			}
+		} else {
+			for k := Type1WinAnsi; k <= Type1Differences; k++ {
+				if used[k] {
+					fmt.Fprintf(&s, " %s %d 0 R", fontName(k), ref(fmt.Sprintf("font%d", k)))
+				}
 			}
 		}
-		s.WriteString(" >> >>")
+		s.WriteString(" >>")
 		return s.String()
+	}
+	xobjDict := func(prefix string, forms []Form, ref func(string) int) string {
+		if len(forms) == 0 {
+			return ""
+		}
+		var s strings.Builder
+		s.WriteString(" /XObject <<")
+		for k, f := range forms {
+			fmt.Fprintf(&s, " /%s %d 0 R", f.Name, ref(fmt.Sprintf("%s_%d", prefix, k)))
+		}
+		s.WriteString(" >>")
+		return s.String()
+	}
+	fontRes := func(page int, ref func(string) int) string {
+		return "<< /Font " + fontDictFor(page, ref) + xobjDict(fmt.Sprintf("form%d", page), doc.Pages[page].Forms, ref) + " >>"
 	}
 	if used[Type1WinAnsi] {
 		add(pending{key: "font0", packOK: true, body: func(func(string) int) string {
@@ -517,13 +595,18 @@ func Plan(doc Doc, lay Layout) File {
 		parentOf[i] = pathOf[i][len(pathOf[i])-1]
 	}
 	if lay.Indirect {
-		add(pending{key: "res", packOK: true, body: func(ref func(string) int) string {
-			return fmt.Sprintf("<< /Font %d 0 R >>", ref("fontdict"))
-		}})
-		add(pending{key: "fontdict", packOK: true, body: func(ref func(string) int) string {
-			r := fontRes(ref) // "<< /Font << ... >> >>"
-			return strings.TrimSuffix(strings.TrimPrefix(r, "<< /Font "), " >>")
-		}})
+		for i := range doc.Pages {
+			i := i
+			if i > 0 && !lay.PerPageFonts && !hasForms {
+				break // one shared resource dictionary
+			}
+			add(pending{key: fmt.Sprintf("res%d", i), packOK: true, body: func(ref func(string) int) string {
+				return fmt.Sprintf("<< /Font %d 0 R%s >>", ref(fmt.Sprintf("fontdict%d", i)), xobjDict(fmt.Sprintf("form%d", i), doc.Pages[i].Forms, ref))
+			}})
+			add(pending{key: fmt.Sprintf("fontdict%d", i), packOK: true, body: func(ref func(string) int) string {
+				return fontDictFor(i, ref)
+			}})
+		}
 		seenMB := map[string]bool{}
 		for _, p := range doc.Pages {
 			p := p
@@ -533,15 +616,20 @@ func Plan(doc Doc, lay Layout) File {
 			}
 		}
 	}
-	attrs := func(p Page, ref func(string) int) string {
+	attrs := func(pi int, ref func(string) int) string {
+		p := doc.Pages[pi]
 		if lay.Indirect {
-			s := fmt.Sprintf(" /MediaBox %d 0 R /Resources %d 0 R", ref("mbox"+mb(p)), ref("res"))
+			ri := pi
+			if !lay.PerPageFonts && !hasForms {
+				ri = 0
+			}
+			s := fmt.Sprintf(" /MediaBox %d 0 R /Resources %d 0 R", ref("mbox"+mb(p)), ref(fmt.Sprintf("res%d", ri)))
 			if p.Rotate != 0 {
 				s += fmt.Sprintf(" /Rotate %d", p.Rotate)
 			}
 			return s
 		}
-		s := fmt.Sprintf(" /MediaBox %s /Resources %s", mb(p), fontRes(ref))
+		s := fmt.Sprintf(" /MediaBox %s /Resources %s", mb(p), fontRes(pi, ref))
 		if p.Rotate != 0 {
 			s += fmt.Sprintf(" /Rotate %d", p.Rotate)
 		}
@@ -555,12 +643,31 @@ func Plan(doc Doc, lay Layout) File {
 			}
 		}
 	}
+	// Form XObjects (recursive); a form is written in the revision of its page
+	var addForms func(page int, prefix string, forms []Form, rev int)
+	addForms = func(page int, prefix string, forms []Form, rev int) {
+		for k, f := range forms {
+			f := f
+			key := fmt.Sprintf("%s_%d", prefix, k)
+			toks := contentTokens(f.Lines, f.Forms, nil, cm, nameFor(page))
+			data := []byte(strings.Join(toks, " ") + eol)
+			addStreamX(&objs, key, rev, lay, func() []byte { return data }, func(ref func(string) int) string {
+				d := "/Type /XObject /Subtype /Form /BBox [0 0 612 792]"
+				if f.Matrix != [6]float64{} {
+					d += fmt.Sprintf(" /Matrix [%s %s %s %s %s %s]", num(f.Matrix[0]), num(f.Matrix[1]), num(f.Matrix[2]), num(f.Matrix[3]), num(f.Matrix[4]), num(f.Matrix[5]))
+				}
+				return d + " /Resources << /Font " + fontDictFor(page, ref) + xobjDict(key, f.Forms, ref) + " >>"
+			})
+			addForms(page, key, f.Forms, rev)
+		}
+	}
 	for i, p := range doc.Pages {
 		i, p := i, p
 		rev := 0
 		if i == appended {
 			rev = 2
 		}
+		addForms(i, fmt.Sprintf("form%d", i), p.Forms, rev)
 		nsplit := max1(lay.Split)
 		var parts [][]byte
 		if !p.NoContents {
@@ -593,14 +700,14 @@ func Plan(doc Doc, lay Layout) File {
 				} else {
 					shown = "(STALE-REVISION-1)"
 				}
-				stale := []byte("BT " + fontName(first.Font) + " 10 Tf 50 500 Td " + shown + " Tj ET" + eol)
+				stale := []byte("BT " + nameFor(i)(first.Font) + " 10 Tf 50 500 Td " + shown + " Tj ET" + eol)
 				addStaleStream(&objs, key, lay, stale)
 			}
 		}
 		add(pending{key: fmt.Sprintf("page%d", i), rev: rev, packOK: true, body: func(ref func(string) int) string {
 			s := fmt.Sprintf("<< /Type /Page /Parent %d 0 R", ref(parentOf[i]))
 			if inherit == "leaf" {
-				s += attrs(p, ref)
+				s += attrs(i, ref)
 			}
 			switch len(ckeys) {
 			case 0:
@@ -682,7 +789,7 @@ func Plan(doc Doc, lay Layout) File {
 			}
 			s += fmt.Sprintf("] /Count %d", countOf(key, upto))
 			if withAttrs {
-				s += attrs(doc.Pages[0], ref)
+				s += attrs(0, ref)
 			}
 			return s + " >>"
 		}}
@@ -859,8 +966,16 @@ func fixLengthOrder(list []pending, mode string) []pending {
 
 // addStream appends a stream object (and, for indirect lengths, its length object before or after it).
 func addStream(objs *[]pending, key string, rev int, lay Layout, data func() []byte) {
+	addStreamX(objs, key, rev, lay, data, nil)
+}
+
+// addStreamX is addStream with extra dictionary entries.
+func addStreamX(objs *[]pending, key string, rev int, lay Layout, data func() []byte, extra func(ref func(string) int) string) {
 	mk := func(ref func(string) int) *Stream {
 		dict, enc := encodeStream(lay.Filter, data())
+		if extra != nil {
+			dict = strings.TrimSpace(extra(ref) + " " + dict)
+		}
 		s := &Stream{Dict: dict, Data: enc}
 		if lay.Length == "before" || lay.Length == "after" {
 			s.LengthRef = ref(key + "_len")
